@@ -57,6 +57,9 @@ list_t              *snoopy_tsrm_threadRepo = &snoopy_tsrm_threadRepo_data;
  * Non-exported function prototypes
  */
 void                        snoopy_tsrm_init                      ();
+void                        snoopy_tsrm_atfork_prepare            ();
+void                        snoopy_tsrm_atfork_parent             ();
+void                        snoopy_tsrm_atfork_child              ();
 int                         snoopy_tsrm_doesThreadRepoEntryExist  (snoopy_tsrm_threadId_t threadId, int mutex_already_locked);
 snoopy_tsrm_threadId_t      snoopy_tsrm_getCurrentThreadId        ();
 listNode_t*                 snoopy_tsrm_getCurrentThreadRepoEntry ();
@@ -165,6 +168,67 @@ void snoopy_tsrm_init ()
     pthread_mutexattr_init   (&snoopy_tsrm_threadRepo_mutexAttr);
     pthread_mutexattr_settype(&snoopy_tsrm_threadRepo_mutexAttr, PTHREAD_MUTEX_RECURSIVE);
     pthread_mutex_init       (&snoopy_tsrm_threadRepo_mutex, &snoopy_tsrm_threadRepo_mutexAttr);
+
+    // Keep the thread repository usable in fork()ed children of multithreaded processes
+    pthread_atfork(&snoopy_tsrm_atfork_prepare, &snoopy_tsrm_atfork_parent, &snoopy_tsrm_atfork_child);
+}
+
+
+
+/*
+ * snoopy_tsrm_atfork_(prepare|parent|child)
+ *
+ * Description:
+ *     fork() handlers. A child created by fork() consists of the forking thread
+ *     only, but inherits the thread repository mutex in whatever state it was
+ *     at that instant. If another thread was holding it, the child's next
+ *     exec() call would wait for it forever.
+ *
+ *     Therefore: take the mutex around fork() (no other thread is inside a
+ *     critical section while the address space is duplicated), release it in
+ *     the parent, and in the child start with a fresh mutex and a repository
+ *     that contains no entries of threads that do not exist there.
+ *
+ * Params:
+ *     (none)
+ *
+ * Return:
+ *     void
+ */
+void snoopy_tsrm_atfork_prepare ()
+{
+    pthread_mutex_lock(&snoopy_tsrm_threadRepo_mutex);
+}
+
+void snoopy_tsrm_atfork_parent ()
+{
+    pthread_mutex_unlock(&snoopy_tsrm_threadRepo_mutex);
+}
+
+void snoopy_tsrm_atfork_child ()
+{
+    snoopy_tsrm_threadId_t      myThreadId;
+    listNode_t                 *curNode;
+    listNode_t                 *nextNode;
+    snoopy_tsrm_threadData_t   *tData;
+
+    // The mutex is owned by a thread of the parent process, unlocking it here is not possible - start afresh
+    pthread_mutex_init(&snoopy_tsrm_threadRepo_mutex, &snoopy_tsrm_threadRepo_mutexAttr);
+
+    // Drop repo entries of threads that only exist in the parent
+    myThreadId = snoopy_tsrm_getCurrentThreadId();
+    curNode    = snoopy_tsrm_threadRepo->first;
+    while (NULL != curNode) {
+        nextNode = curNode->next;
+        tData    = curNode->value;
+        if ((NULL != tData) && (0 == pthread_equal(myThreadId, tData->threadId))) {
+            snoopy_util_list_remove(snoopy_tsrm_threadRepo, curNode);
+            free(tData->inputdatastorage);
+            free(tData->configuration);
+            free(tData);
+        }
+        curNode = nextNode;
+    }
 }
 
 
